@@ -145,7 +145,10 @@ func (d *Decoder) unmarshal(val reflect.Value, tagType byte) error {
 		switch vk := val.Kind(); vk {
 		default:
 			return errors.New("cannot parse TagFloat as " + vk.String())
-		case reflect.Float32, reflect.Float64:
+		case reflect.Float32:
+			// Convert keeps the exact bit pattern (NaN payloads) for named float32 types
+			val.Set(reflect.ValueOf(value).Convert(val.Type()))
+		case reflect.Float64:
 			val.SetFloat(float64(value))
 		case reflect.Interface:
 			val.Set(reflect.ValueOf(value))
